@@ -20,6 +20,15 @@ from .consteval import Folder, Unknown
 from .model import FuncInfo, Model, body_without_docstring
 
 
+def _load(t: ast.AST) -> ast.AST:
+    import copy
+    t = copy.deepcopy(t)
+    for n in ast.walk(t):
+        if hasattr(n, "ctx"):
+            n.ctx = ast.Load()  # type: ignore[attr-defined]
+    return t
+
+
 class _Return(Exception):
     def __init__(self, value: Optional[Form]) -> None:
         self.value = value
@@ -65,14 +74,63 @@ class _Ev(Evaluator):
             try:
                 t = self.run.folder.fold(e.test)
             except Exception:
-                raise Inconclusive(f"conditional on a non-constant: {ast.unparse(e.test)[:60]}")
+                tf = self.truth(e.test)
+                a, b = self.ev(e.body), self.ev(e.orelse)
+                return self.run.select(tf, a, b, e)
             return self.ev(e.body if t else e.orelse)
+        if isinstance(e, (ast.Subscript, ast.Attribute)) and self.run.on_load is not None:
+            r = self.run.on_load(e, self)
+            if r is not None:
+                return r
+        if isinstance(e, (ast.Compare, ast.BoolOp)) or (isinstance(e, ast.UnaryOp) and isinstance(e.op, ast.Not)):
+            return self.truth(e)
+        if isinstance(e, ast.Call) and isinstance(e.func, ast.Name) and e.func.id in ("bool",) and len(e.args) == 1:
+            return self.truth(e.args[0])
         return Evaluator.ev(self, e)
+
+    def truth(self, e: ast.AST) -> Form:
+        """A test as a 0/1-valued form (Inconclusive when it is not one)."""
+        try:
+            return Form.k(1 if self.run.folder.fold(e) else 0)
+        except Exception:
+            pass
+        if isinstance(e, ast.UnaryOp) and isinstance(e.op, ast.Not):
+            return Form.k(1) - self.truth(e.operand)
+        if isinstance(e, ast.Compare) and len(e.ops) == 1:
+            l, r = self.ev(e.left), self.ev(e.comparators[0])
+            op = e.ops[0]
+            if r.is_const() and is_bit(l) and r.const in (0, 1) and isinstance(op, (ast.Eq, ast.NotEq, ast.Is, ast.IsNot)):
+                same = l if r.const == 1 else Form.k(1) - l
+                return same if isinstance(op, (ast.Eq, ast.Is)) else Form.k(1) - same
+            if l.is_const() and is_bit(r) and l.const in (0, 1) and isinstance(op, (ast.Eq, ast.NotEq)):
+                same = r if l.const == 1 else Form.k(1) - r
+                return same if isinstance(op, ast.Eq) else Form.k(1) - same
+            raise Inconclusive(f"comparison outside the 0/1 fragment: {ast.unparse(e)[:60]}")
+        f = self.ev(e)
+        if is_bit(f):
+            return f
+        raise Inconclusive(f"test is not a 0/1 value: {ast.unparse(e)[:60]}")
+
+
+def is_bit(f: Form) -> bool:
+    """The form only takes the values 0 and 1: a constant 0/1, one bit symbol, or 1 - one bit symbol."""
+    if f.tails:
+        return False
+    if not f.bits:
+        return f.const in (0, 1)
+    if len(f.bits) != 1:
+        return False
+    c = next(iter(f.bits.values()))
+    return (c == 1 and f.const == 0) or (c == -1 and f.const == 1)
 
 
 class AbsRun:
     def __init__(self, model: Model, f: FuncInfo, env: Mapping[str, Form], consts: Optional[Mapping[str, int]] = None,
-                 on_call: Optional[Callable[[ast.Call, Evaluator], Optional[Form]]] = None, max_steps: int = 4000) -> None:
+                 on_call: Optional[Callable[[ast.Call, Evaluator], Optional[Form]]] = None, max_steps: int = 4000,
+                 on_load: Optional[Callable[[ast.AST, Evaluator], Optional[Form]]] = None,
+                 on_store: Optional[Callable[[ast.AST, Form, Evaluator], bool]] = None) -> None:
+        self.on_load = on_load
+        self.on_store = on_store
         self.model, self.f = model, f
         self.env: dict = dict(env)
         self.consts = dict(consts or {})
@@ -82,6 +140,20 @@ class AbsRun:
         self.steps = 0
         self.max_steps = max_steps
         self.ev = _Ev(self)
+        # tests (source text) under which the statements now running are reached, when a non-constant
+        # `break` / conditional store made the rest conditional; hooks may read it
+        self.guards: list[str] = []
+        self._loop_depth = 0
+        self._guard_pushed: list[int] = []
+
+    def select(self, t: Form, a: Form, b: Form, at: ast.AST) -> Form:
+        """t*a + (1-t)*b for a 0/1-valued t: linear when a - b is a constant (or t is)."""
+        if t.is_const():
+            return a if t.const else b
+        d = a - b
+        if d.is_const():
+            return b + t.scale(d.const)
+        raise Inconclusive(f"the two arms of a branch differ by a non-constant at line {getattr(at, 'lineno', 0)}")
 
     def on_call(self, c: ast.Call, ev: Evaluator) -> Optional[Form]:
         if self._hook is not None:
@@ -130,9 +202,54 @@ class AbsRun:
             try:
                 t = self.folder.fold(s.test)
             except Exception:
-                raise Inconclusive(f"branch on a non-constant: {ast.unparse(s.test)[:60]}")
+                # `if x[p] != v: x[p] = v`  is the store  x[p] = v
+                if not s.orelse and len(s.body) == 1 and isinstance(s.body[0], ast.Assign) and len(s.body[0].targets) == 1 \
+                        and isinstance(s.test, ast.Compare) and len(s.test.ops) == 1 and isinstance(s.test.ops[0], (ast.NotEq, ast.IsNot)):
+                    tg, val = s.body[0].targets[0], s.body[0].value
+                    l, r = s.test.left, s.test.comparators[0]
+                    if isinstance(tg, ast.Subscript) and {ast.dump(l), ast.dump(r)} == {ast.dump(_load(tg)), ast.dump(val)}:
+                        self.stmt(s.body[0])
+                        return
+                # `if c: break` inside a loop: the rest of the loop runs under `not c`
+                if self._loop_depth and not s.orelse and s.body and isinstance(s.body[-1], ast.Break) \
+                        and all(isinstance(x, (ast.Assert, ast.Pass, ast.Expr)) for x in s.body[:-1]):
+                    self.guards.append("not (" + " ".join(ast.unparse(s.test).split()) + ")")
+                    self._guard_pushed[-1] += 1
+                    return
+                # a conditional store: recorded under its guard
+                if self.on_store is not None and not s.orelse and all(isinstance(x, ast.Assign) and not isinstance(x.targets[0], ast.Name) for x in s.body):
+                    self.guards.append(" ".join(ast.unparse(s.test).split()))
+                    try:
+                        self.block(s.body)
+                    finally:
+                        self.guards.pop()
+                    return
+                # a branch on a 0/1 value: run both arms and join (no path is followed separately)
+                tf = self.ev.truth(s.test)
+                if any(isinstance(n, (ast.Return, ast.Break, ast.Continue, ast.Raise)) for x in s.body + s.orelse for n in ast.walk(x)):
+                    raise Inconclusive(f"branch on a non-constant leaves the block: {ast.unparse(s.test)[:60]}")
+                if self.on_store is not None and any(isinstance(n, (ast.Assign, ast.AugAssign)) and not isinstance(
+                        (n.targets[0] if isinstance(n, ast.Assign) else n.target), ast.Name) for x in s.body + s.orelse for n in ast.walk(x)):
+                    raise Inconclusive("a store under a non-constant branch")
+                base = dict(self.env)
+                self.block(s.body)
+                ea = dict(self.env)
+                self.env.clear()
+                self.env.update(base)
+                self.block(s.orelse)
+                eb = dict(self.env)
+                for k in set(ea) | set(eb):
+                    if k in ea and k in eb:
+                        self.env[k] = ea[k] if ea[k] == eb[k] else self.select(tf, ea[k], eb[k], s)
+                    else:
+                        self.env.pop(k, None)
+                return
             self.block(s.body if t else s.orelse)
             return
+        if isinstance(s, ast.Assign) and len(s.targets) == 1 and isinstance(s.targets[0], (ast.Subscript, ast.Attribute)) and self.on_store is not None:
+            v = self.ev.ev(s.value)
+            if self.on_store(s.targets[0], v, self.ev):
+                return
         if isinstance(s, ast.For) and isinstance(s.target, ast.Name) and isinstance(s.iter, ast.Call) \
                 and isinstance(s.iter.func, ast.Name) and s.iter.func.id in ("range", "reversed"):
             it = s.iter
@@ -148,9 +265,26 @@ class AbsRun:
             seq = list(range(*args))
             if rev:
                 seq.reverse()
-            for k in seq:
-                self.env[s.target.id] = Form.k(k)
-                self.block(s.body)
+            self._loop_depth += 1
+            self._guard_pushed.append(0)
+            assigned_after_guard: set = set()
+            try:
+                for k in seq:
+                    self.env[s.target.id] = Form.k(k)
+                    before = self._guard_pushed[-1]
+                    self.block(s.body)
+                    if self._guard_pushed[-1]:
+                        for n in ast.walk(s):
+                            if isinstance(n, ast.Name) and isinstance(n.ctx, ast.Store):
+                                assigned_after_guard.add(n.id)
+            finally:
+                self._loop_depth -= 1
+                for _ in range(self._guard_pushed.pop()):
+                    self.guards.pop()
+            for n in assigned_after_guard:
+                self.env.pop(n, None)  # its value depends on where the loop was left
+            if assigned_after_guard and s.orelse:
+                raise Inconclusive("loop with a non-constant break and an else clause")
             self.block(s.orelse)
             return
         raise Inconclusive(f"statement outside the abstract interpreter: {type(s).__name__} at line {getattr(s, 'lineno', 0)}")
